@@ -119,6 +119,9 @@ def build(case: dict[str, Any], d: Path, job: dict[str, Any]) -> Any:
         post_hook=f"/bin/sh {job['hook']} {d / 'hook.log'} {1 if fail_post else 0}",
         inject=json.dumps(inj, sort_keys=True) if inj else "",
     )
+    if c["point"] == "DbClose" and c["how"] == "CtrlC":
+        arm_ctrl_c_in_db_close(case["sync"])
+        kw["inject"] = ""
     if c["point"] == "PreHook" and c["how"] == "CtrlC":
         # Ctrl-C while the pre-hook is running: the hook does its normal work, tells the parent, then lingers
         kw["pre_hook"] = f"/bin/sh {job['hook']} {d / 'hook.log'} 0 && echo ready > {case['sync']} && sleep 1.5"
@@ -327,6 +330,31 @@ def cleanup(cmd: Any) -> None:
             os.close(fd)
         except OSError:
             pass
+
+
+def arm_ctrl_c_in_db_close(sync: str) -> None:
+    """Ctrl-C while the database is being closed (DBHandler.disconnect() waiting for the writer queue, "Syncing
+    database..."): the wait tells the parent it has been reached and lasts a moment (CLI child only)."""
+    from gallia.db.handler import DBHandler
+
+    orig = DBHandler.disconnect
+
+    async def disconnect(self: Any) -> None:
+        q = getattr(self, "_execute_queue", None)
+        if q is not None:
+            real_join = q.join
+
+            async def join() -> None:
+                fd = os.open(sync, os.O_WRONLY)
+                os.write(fd, b"ready\n")
+                os.close(fd)
+                await asyncio.sleep(3)  # the SIGINT normally ends this wait
+                await real_join()
+
+            q.join = join
+        await orig(self)
+
+    DBHandler.disconnect = disconnect  # type: ignore[method-assign]
 
 
 def run_entry_point(cmd: Any) -> tuple[str, Any]:
